@@ -22,8 +22,8 @@ TECH = "deterministic simulation: seeded operation-history search over forked ha
 
 CHECKS = {
  "C13": dict(cat="exploration", ref="DESIGN.md 6 (C13)",
-  text="Seeded simulation of Parser operation histories (all public Parser methods, Copy-forks, 8 fixed parser_method! forms, base offsets up to u32::MAX-len) on real konst code; after every step the self-consistency invariants of C13 (remainder == text[start-base..end-base] by content and address, offsets on char boundaries, direction, error offset/direction rule) are checked. Sampling, not proof: a clean batch is evidence that the invariant survives ~1e6 (quick) / 4e7 (thorough) histories.",
-  note="Trusted: rustc/std (str slicing, is_char_boundary), the hand-written PRNG/planner, the offset arithmetic of the oracle. Assumes base + text.len() <= u32::MAX. Text <= 16 (28) chars over a fixed token alphabet; <= 48 (192) steps; <= 3 forked handles.",
+  text="Seeded simulation of Parser operation histories (all public Parser methods, Copy-forks, 8 fixed parser_method! forms, base offsets up to u32::MAX-len) on real konst code; after every step the self-consistency invariants of C13 (remainder == text[start-base..end-base] by content and address, offsets on char boundaries, direction, error offset/direction rule) are checked. Plus a completely enumerated sweep (every operation kind x 9 patterns x 12 small texts, alone and after one positioning step). Sampling, not proof: a clean batch is evidence that the invariant survives 4e6 (quick) / 4e8 (thorough) histories.",
+  note="Trusted: rustc/std (str slicing, is_char_boundary), the hand-written PRNG/planner, the offset arithmetic of the oracle. Assumes base + text.len() <= u32::MAX. Text <= 16 (28) chars (1 run in 24: up to 300) over a token alphabet with 1-4-byte chars at every UTF-8 lead-byte class boundary and integer MIN/MAX literals; bases up to u32::MAX-len; <= 48 (192) steps; <= 3 forked handles. parse_direction() after a successful operation and error kinds other than SplitExhausted are not compared (not part of the statements).",
   tech="deterministic simulation: seeded operation-history search over forked Parser handles with per-step invariant oracle, fail-return fault bias, minimised replay"),
  "C14": dict(cat="exploration", ref="DESIGN.md 6 (C14)",
   text="Same simulated histories as C13, second oracle: per step the new remainder/piece/value must equal what konst's own free string function (strip/trim/trim_matches/find_skip/split_once/find) computes from the pre-operation remainder (std's str::parse for the -?[0-9]+ prefix of integer parses, because konst's whole-string parser is itself implemented through the Parser), success exactly when it finds something, modelled error kind, modelled one-shot split flag interleaved with all other operations; protocol sub-scenarios compare repeated split/rsplit/split_terminator/rsplit_terminator with std's str::split/rsplit and require a terminating error within len+4 calls (bounded progress).",
@@ -31,11 +31,11 @@ CHECKS = {
   tech="deterministic simulation: seeded operation-history search with per-step reference-model comparison and std-backed protocol sub-scenarios, minimised replay"),
  "C08": dict(cat="exploration", ref="DESIGN.md 6 (C08)",
   text="Seeded simulation of histories (next / next_back / copy-fork / rev / as_slice / remainder / drop, drained to exhaustion) over up to 4 handles onto one slice, for all 13 konst slice-iterator families and their Rev types, element types u8-by-index, () and a 24-byte struct, each step compared by address+length with the std iterator of the same name. Sampling, not proof.",
-  note="Trusted: core::slice iterators as reference. len <= 12 (40), size <= len+2, array_chunks N in 1..=4, <= 64 (256) planned steps + drain.",
+  note="Trusted: core::slice iterators as reference. len <= 12 (40), sometimes 30..129, for () also within 9 of usize::MAX; sizes 1..=len+2 and (1 run in 24) near usize::MAX; array_chunks N in 1..=4; element types u8, (), 3-byte align-1, 24-byte; <= 64 (256) planned steps + drain; plus a completely enumerated exhaustion sweep (12 constructors x 6 lengths x up to 6 sizes x 6 step patterns).",
   tech=TECH),
  "C09": dict(cat="exploration", ref="DESIGN.md 6 (C09)",
   text="Seeded simulation of front/back/fork/rev histories on konst's range iterators obtained through into_iter! (by value and by reference) for all 12 integer types and char, compared step by step with core::ops range iterators; for_each! (plain, rev() adapter, inherent rev) on the range values and on forked mid-iteration iterators. Bounds biased to MIN/MAX/0/-1, inverted and empty ranges, the surrogate gap; u8/i8 pairs additionally sampled uniformly (visited-pair count reported). Sampling, not proof.",
-  note="Trusted: core::ops range iterators. RangeFrom never stepped to MAX's successor. Spans <= 40 (300).",
+  note="Trusted: core::ops range iterators. RangeFrom (by value and by reference) never stepped to MAX's successor. Spans <= 40 (300), whole-type ranges 1 run in 40; for_range! on exclusive integer ranges; plus an enumerated sweep around every anchor (MIN, MAX, 0, -1, surrogate gap).",
   tech=TECH),
  "C01": dict(cat="exploration", ref="DESIGN.md 6 (C01)",
   text="SCOPED to the code the simulated histories execute. (a) Natively, in every world and after every step: each non-empty returned slice/str/array reference lies inside the datum it was derived from, each &str is valid UTF-8 on char boundaries of the datum, each char is a scalar value, no dead slot / double drop / drop of garbage (ledger). Includes free-mode histories (mixed next/next_back and mid-iteration rev on Split/RSplit) that have no std counterpart. (b) Under Miri: a sample of the same plans from every world plus the by-value fault sweep (a third of its cells per quick run chosen by the seed, all cells in thorough); any 'Undefined Behavior' diagnostic is a violation with the plan as replay (re-executed under Miri by ./check replay).",
@@ -51,11 +51,11 @@ CHECKS = {
   tech="deterministic simulation with fault injection: seeded builder/macro histories with early-exit and panic faults at every callback index, liveness-canary and model-equality oracle, minimised replay"),
  "C07": dict(cat="exploration", ref="DESIGN.md 6 (C07)",
   text="ITERATION CLAUSE ONLY: seeded simulation of front/back/fork/rev/as_str histories on chars/char_indices (and reversed types) over strings of boundary scalars of every UTF-8 length, compared step by step with core::str::{Chars, CharIndices}. The clause 'for every char / every u32' (complete enumeration) is a pure-input statement and is not decided; chr::encode_utf8/from_u32 only run on the scalars the generator places.",
-  note="Trusted: core::str iterators. Strings <= 12 (32) chars. Undecided clause named above.",
+  note="Trusted: core::str iterators. Strings <= 12 (32) chars (1 run in 40: up to 257) of boundary scalars of every UTF-8 length and random scalars; plus an enumerated sweep. Undecided clause named above.",
   tech=TECH),
  "C06": dict(cat="exploration", ref="DESIGN.md 6 (C06)",
   text="Seeded simulation of next/fork/remainder histories on split, rsplit, split_terminator, rsplit_terminator (str and char delimiters incl. the empty string, texts assembled so that delimiters lead, trail, touch and overlap, multi-byte chars), each step compared with the piece sequence of std's iterator (mirrored rule for rsplit_terminator), remainder() after every step compared with the not-yet-split part computed from the piece offsets, rev() of fresh split/rsplit compared with the r-counterpart. Sampling, not proof.",
-  note="Trusted: str::split/rsplit/split_terminator. Text <= 12 (24) chars; 15 str + 6 char delimiters.",
+  note="Trusted: str::split/rsplit/split_terminator. Text <= 12 (24) chars (1 run in 40: up to 300); 21 fixed str delimiters, random delimiters over {a,b} / {a,b,',',e-acute} of length 1..=5, 6 char delimiters; plus an enumerated sweep.",
   tech=TECH),
 }
 
